@@ -70,8 +70,100 @@ def random_rank(rng: random.Random) -> Any:
     return rank
 
 
+CFG_DISCOVER = """SPECIFICATION Spec
+CONSTRAINT Emit
+INVARIANT EveryModuleOnce
+INVARIANT PackageFirst
+INVARIANT Contiguous
+PROPERTY Terminates
+"""
+
+
+def fname(e: Dict[str, Any]) -> str:
+    return {"pkg": e["name"], "dir": e["name"], "py": e["name"] + ".py", "dot": "." + e["name"] + ".py", "txt": e["name"] + ".txt"}[e["kind"]]
+
+
+def random_tree(rng: random.Random) -> Dict[str, Any]:
+    """A directory tree for Discover.tla: entries with parent directory, name, kind and sort rank among siblings."""
+    entries: List[Dict[str, Any]] = []
+    dirs = [0]
+    for _ in range(rng.randint(1, 9)):
+        par = rng.choice(dirs)
+        kind = rng.choice(["pkg", "pkg", "dir", "py", "py", "py", "dot", "txt"])
+        name = rng.choice(["a", "b", "a_b", "A", "_p", "zz", "a1"])
+        e = {"par": par, "name": name, "kind": kind, "rank": 0}
+        if any(x["par"] == par and fname(x) == fname(e) for x in entries):
+            continue
+        entries.append(e)
+        if kind in ("pkg", "dir"):
+            dirs.append(len(entries))
+    for d in dirs:
+        sibs = sorted((i for i, x in enumerate(entries) if x["par"] == d), key=lambda i: fname(entries[i]))
+        for r, i in enumerate(sibs):
+            entries[i]["rank"] = r
+    return {"root": "top", "entries": entries}
+
+
+def realise_tree(t: Dict[str, Any], base: Path) -> Path:
+    root = base / t["root"]
+    root.mkdir(parents=True)
+    (root / "__init__.py").write_text("")
+    paths = {0: root}
+    for i, e in enumerate(t["entries"], 1):
+        p = paths[e["par"]] / fname(e)
+        if e["kind"] in ("pkg", "dir"):
+            p.mkdir()
+            if e["kind"] == "pkg":
+                (p / "__init__.py").write_text("")
+            paths[i] = p
+        else:
+            p.write_text("x = 1\n")
+    return root
+
+
+def discover_phase(ctx: Ctx, rng: random.Random) -> None:
+    """Discover.tla: the order in which modules enter the unprocessed list is the sorted traversal, every source file of
+    the package tree is discovered once (packages win name clashes), and the resulting schedule is admissible - the
+    assumption under which Processing.tla quantifies over schedules.  Every tree is replayed into the real System."""
+    from pydoctor import model
+    trees = [random_tree(rng) for _ in range(150 if ctx.quick else 1500)]
+    f = ctx.scratch / "trees.json"
+    f.write_text(json.dumps(trees))
+    r = ctx.tlc("Discover", CFG_DISCOVER, workers="auto", env={"TREE_FILE": str(f)}, check=True, timeout=1500)
+    ctx.extra["discover"] = {"trees": len(trees), "design_level_violated": r.violated, "mismatches": 0}
+    got = {rec["tid"]: rec["mods"] for rec in r.printed}
+    for i, t in enumerate(trees, 1):
+        d = ctx.scratch / f"tree_{i}"
+        root = realise_tree(t, d)
+        system = model.System()
+        system.options.quietness = 0
+        orig = model.System.msg
+        model.System.msg = lambda self, *a, **k: None
+        try:
+            system.systemBuilder(system).addModule(root)
+        finally:
+            model.System.msg = orig
+        real = [{"name": m.fullName().split("."), "pkg": isinstance(m, model.Package)} for m in system.unprocessed_modules]
+        shutil.rmtree(d, ignore_errors=True)
+        ctx.traces += 1
+        if real != got.get(i):
+            ctx.extra["discover"]["mismatches"] += 1
+            ctx.drift_note({"what": "discover", "tree": t, "spec": got.get(i), "real": real})
+        # the property-level clause on the REAL order: package before contents, sub-trees contiguous, nothing lost or doubled
+        names = [tuple(m["name"]) for m in real]
+        ok = len(set(names)) == len(names)
+        for a, ma in enumerate(real):
+            if ma["pkg"]:
+                inside = [b for b, mb in enumerate(real) if tuple(mb["name"][:len(ma["name"])]) == tuple(ma["name"]) and b != a]
+                ok = ok and all(b > a for b in inside) and (not inside or max(inside) - a == len(inside))
+        if not ok:
+            ctx.violation({"invariant": "AdmissibleDiscoveryOrder", "origin": {"family": "discover"}, "tree": t, "real": real,
+                           "key": "discover:" + json.dumps(real)[:100]})
+
+
 def run(ctx: Ctx) -> int:
     rng = random.Random(ctx.seed)
+    discover_phase(ctx, rng)
     projs = families.all_projects(ctx.quick)
     if not ctx.quick:
         projs += [families.random_project(rng, rng.randint(3, 6)) for _ in range(250)]
@@ -167,7 +259,14 @@ def replay(ctx: Ctx, path: str) -> int:
     w = json.load(open(path))
     o = w["origin"]
     bad = False
-    if "project" in o:
+    if w.get("invariant") == "AdmissibleDiscoveryOrder":
+        from pydoctor import model
+        root = realise_tree(w["tree"], ctx.scratch / "replaytree")
+        system = model.System()
+        system.systemBuilder(system).addModule(root)
+        real = [{"name": m.fullName().split("."), "pkg": isinstance(m, model.Package)} for m in system.unprocessed_modules]
+        bad = real == w["real"]
+    elif "project" in o:
         proj = {**o["project"], "family": o.get("family", ""), "meta": {"cyclic": o.get("cyclic", False)}}
         ms = {tuple(x["site"]) for x in P.expected_reexports(proj, multi=True)}
         canon = canon_hier if o.get("cyclic") else (lambda d: canon_full(d, ms))
